@@ -21,13 +21,20 @@
 (*          again and again                                                 *)
 (*   "D04"  the flags are not reset by the public entry point: the second   *)
 (*          call on the same object finds the start file processed          *)
+(*   "D28"  look-ups only see the components merged into the document of    *)
+(*          the file being read: a file imported by two files (diamond) is  *)
+(*          invisible to the second importer, whose referring component is  *)
+(*          dropped silently                                                *)
+(*   "D28b" a component of a file that is still being read (an importer     *)
+(*          further up the stack: import cycles) cannot be referred to       *)
 (* With Dev = {} this is the design the properties C11/C12 require.         *)
 (***************************************************************************)
 EXTENDS Naturals, Sequences, FiniteSets, TLC
 
 CONSTANTS File,      \* set of registered file names
           Dev,       \* set of enabled deviations
-          MaxCalls   \* length of the call history explored
+          MaxCalls,  \* length of the call history explored
+          RefsOn     \* TRUE: the type of every file refers to a global element of each file it imports
 
 Special == {"wk", "noloc", "missing"}   \* import targets that are not registered files
 
@@ -47,7 +54,9 @@ vars == <<g, start, processed, stack, reads, pc, result, calls, doc, first>>
 None == [none |-> TRUE]
 AllFalse == [f \in File |-> FALSE]
 Zero == [f \in File |-> 0]
-Frame(f) == [f |-> f, todo |-> g[f], comps |-> <<>>]
+\* comps: files whose components have been read into this frame's document (visible to look-ups);
+\* types: files whose referring type survived (what the output will contain)
+Frame(f) == [f |-> f, todo |-> g[f], comps |-> <<>>, types |-> <<>>]
 Top == stack[Len(stack)]
 HasDup == \E i, j \in 1..Len(stack) : i < j /\ stack[i].f = stack[j].f
 
@@ -99,12 +108,20 @@ ImportRecurse(t) == /\ pc = "run" /\ ~HasDup /\ Top.todo # <<>> /\ Head(Top.todo
                     /\ Push(PopTodo, t)
                     /\ UNCHANGED <<g, start, pc, result, calls, doc, first>>
 
+\* the files whose global elements the type of the top frame's file refers to
+Needs == IF RefsOn THEN ({g[Top.f][i] : i \in 1..Len(g[Top.f])} \cap File) \ {Top.f} ELSE {}
+\* the files whose components a look-up made while the top frame's file is read can find
+Visible == {Top.comps[i] : i \in 1..Len(Top.comps)}
+           \cup (IF "D28" \in Dev THEN {} ELSE UNION {{stack[k].comps[i] : i \in 1..Len(stack[k].comps)} : k \in 1..(Len(stack) - 1)})
+           \cup (IF "D28" \in Dev \/ "D28b" \in Dev THEN {} ELSE File)
 Leave == /\ pc = "run" /\ ~HasDup /\ Top.todo = <<>>
-         /\ LET cs == Append(Top.comps, Top.f) IN
+         /\ LET cs == Append(Top.comps, Top.f)
+                ts == IF Needs \subseteq Visible THEN Append(Top.types, Top.f) ELSE Top.types   \* else: dropped silently
+            IN
             /\ processed' = [processed EXCEPT ![Top.f] = TRUE]
             /\ IF Len(stack) = 1
-               THEN /\ Finish("doc", cs) /\ UNCHANGED <<reads, calls>>
-               ELSE /\ stack' = [SubSeq(stack, 1, Len(stack) - 1) EXCEPT ![Len(stack) - 1].comps = @ \o cs]
+               THEN /\ Finish("doc", ts) /\ UNCHANGED <<reads, calls>>
+               ELSE /\ stack' = [SubSeq(stack, 1, Len(stack) - 1) EXCEPT ![Len(stack) - 1].comps = @ \o cs, ![Len(stack) - 1].types = @ \o ts]
                     /\ UNCHANGED <<reads, pc, result, calls, doc, first>>
          /\ UNCHANGED <<g, start>>
 
